@@ -51,6 +51,10 @@ def get_binding(name, namespace):
 
     for binding in namespace.bindings:
         if binding.name == name:
+            if isinstance(namespace, ast.Module) and name in ['exec', 'eval', 'locals', 'globals', 'vars']:
+                if all(isinstance(node, ast.Global) or (isinstance(node, ast.Name) and isinstance(node.ctx, ast.Load)) for node in binding.references):
+                    # Only declared global, never bound by the module: this is the builtin
+                    namespace.tainted = True
             return binding
 
     if not isinstance(namespace, ast.Module):
